@@ -88,3 +88,28 @@ package codegen
 //@   property C01
 //@   let tableOK = (forall k String :: inMap(isPackage, k) && isPackage[k] ==> !hasSuffix(k, "_")) && !(inMap(isPackage, "val") && isPackage["val"]) && !(inMap(isPackage, "Val") && isPackage["Val"])
 //@   proves* not.reserved: tableOK && str != "" ==> !isPredeclared(result) && !isKeyword(result) && !(inMap(isPackage, result) && isPackage[result])
+
+// ---- walking mapped attributes (C14: documented and decoded parameters carry the same flags) -----------
+// Both the OpenAPI generators and the server/client data builders learn a parameter's wire name and required
+// flag from this walker: every call of the iterator passes the attribute's own name, the wire name the
+// mapped attribute records for it, and required == ma.IsRequired(name) (IsRequired and ElemName are
+// abstracted as functions of their receiver and argument at the call).
+//@ smt (declare-fun isReqSpec (Int String) Bool)
+//@ smt (declare-fun elemNameSpec (Int String) String)
+//@ func WalkMappedAttr
+//@   params ma it
+//@   locals nat
+//@   property C14
+//@   requires ma != nil
+//@   callspec (*AttributeExpr).IsRequired params a attName
+//@       ensures result == isReqSpec(a, attName)
+//@       modifies nothing
+//@   callspec (*MappedAttributeExpr).ElemName params m keyName
+//@       ensures result == elemNameSpec(m, keyName)
+//@       modifies nothing
+//@   callspec it params name elem required a
+//@       requires* visits.attribute: name == nat.Name && a == nat.Attribute
+//@       requires* wire.name: elem == elemNameSpec(ma, name)
+//@       requires* required.flag: required == isReqSpec(ma.AttributeExpr, name)
+//@       modifies all
+//@   modifies all
